@@ -125,7 +125,28 @@ def build(rng, triple):
             "pid": 1, "pname": 2}
 
 
+def materialise(case):
+    """A case is a *recipe* (which kit classes, which random choices): the plasmids are instances of whatever the
+    classes' structures spell on the tree being checked, so they are built from the recipe each time the case is
+    run — a replay must not carry plasmids built from another tree's structures."""
+    import random
+    kind, arg, rs = case["recipe"]
+    r = random.Random(rs)
+    fresh = build_two_level(r, arg) if kind == "two" else build(r, tuple(arg))
+    if fresh is None:
+        return None
+    for k in ("swap", "cited", "recipe"):
+        if k in case:
+            fresh[k] = case[k]
+    return fresh
+
+
 def check_case(ctx, case):
+    if "recipe" in case:
+        case = materialise(case)
+        if case is None:
+            ctx.note("recipe-not-buildable-on-this-tree")
+            return
     if "cassettes" in case:
         return check_two_level(ctx, case)
     Nx = asm.cls_by_name("kit:" + case["triple"][2])
@@ -152,7 +173,7 @@ def check_case(ctx, case):
             Nx.__name__, res[3], insert), case)
     else:
         # it can itself be used: at any rotation the verdict stays
-        r = ctx.rng.randrange(len(pseq))
+        r = (case["recipe"][2] if "recipe" in case else ctx.rng.randrange(len(pseq))) % len(pseq)
         if T.evaluate(Nx, gen.rot(pseq, r))[0] != "valid":
             ctx.fail("the product is accepted by {} but not after rotation by {}".format(Nx.__name__, r), case)
     ctx.note("triple:" + case["triple"][0])
@@ -274,13 +295,12 @@ def run(ctx):
     for kit in ("cidar",):   # CIDAR: the next-level overhangs are the cassette vector's own (G1, G3)
         made = 0
         for _ in range(ctx.budget(40, 1500) * 3):
-            c2 = build_two_level(rng, kit)
-            if c2 is None:
+            import random
+            rs = rng.getrandbits(48)
+            if build_two_level(random.Random(rs), kit) is None:
                 ctx.note("two-level-build-failed:" + kit)
                 continue
-            c2["swap"] = rng.random() < 0.5
-            c2["cited"] = rng.random() < 0.4
-            ctx.guard(check_two_level, c2)
+            ctx.guard(check_case, {"recipe": ["two", kit, rs], "swap": rng.random() < 0.5, "cited": rng.random() < 0.4})
             made += 1
             if made >= ctx.budget(40, 1500):
                 break
@@ -288,11 +308,12 @@ def run(ctx):
     for triple in TRIPLES:
         made = 0
         for _ in range(per * 3):
-            case = build(rng, triple)
-            if case is None:
+            import random
+            rs = rng.getrandbits(48)
+            if build(random.Random(rs), triple) is None:
                 ctx.note("build-failed:" + triple[0])
                 continue
-            ctx.guard(check_case, case)
+            ctx.guard(check_case, {"recipe": ["one", list(triple), rs]})
             made += 1
             if made >= per:
                 break
